@@ -77,7 +77,15 @@ def run_real(txt, ts, scorer_name, latent, depth, num, den, deadline):
             err = type(e).__name__
     finally:
         C.timeout_ = orig
-    return out, subject, labels, err, calls[0]
+    single = None
+    if deadline is None and err == "-":
+        # the single-result call with identical arguments (fresh scorer instance): must be the stream's last maximum
+        try:
+            r = C.ctparse(txt, ts=ts, timeout=0, relative_match_len=num / den, max_stack_depth=depth, scorer=make_scorers()[scorer_name](), latent_time=latent)
+            single = "N" if r.resolution is None else "%s|%s|%d" % (enc_art(r.resolution), ",".join(str(x) for x in r.production), int(r.score))
+        except Exception as e:
+            single = "EXC " + type(e).__name__
+    return out, subject, labels, err, calls[0], single
 
 
 def fmt(out, subject, labels, err):
@@ -135,15 +143,15 @@ def run(rng, n_texts=60, deadlines=True):
     cfgs = [("hash", True, 10, 1, 1), ("hash", False, 0, 1, 1), ("hash", True, 1, 1, 1), ("hash", False, 3, 1, 2), ("const", False, 0, 1, 1), ("const", True, 10, 3, 4)]
     for txt, ts in sample:
         for (scn, latent, depth, num, den) in cfgs:
-            out, subject, labels, err, ncalls = run_real(txt, ts, scn, latent, depth, num, den, None)
+            out, subject, labels, err, ncalls, single = run_real(txt, ts, scn, latent, depth, num, den, None)
             ops.append("parse %s %s %d %d %d %d - %s" % (scn, enc_ts(ts), 1 if latent else 0, depth, num, den, enc(txt)))
-            want.append((scn, fmt(out, subject, labels, err)))
+            want.append((scn, fmt(out, subject, labels, err), single))
             meta.append(("parse", txt, ts, scn, latent, depth, num, den, None))
             if deadlines and scn == "hash" and depth in (10, 0) and ncalls <= 60:
                 for k in range(0, ncalls + 1):
-                    o2, s2, l2, e2, _ = run_real(txt, ts, scn, latent, depth, num, den, k)
+                    o2, s2, l2, e2, _, _s = run_real(txt, ts, scn, latent, depth, num, den, k)
                     ops.append("parse %s %s %d %d %d %d %d %s" % (scn, enc_ts(ts), 1 if latent else 0, depth, num, den, k, enc(txt)))
-                    want.append((scn, fmt(o2, s2, l2, e2)))
+                    want.append((scn, fmt(o2, s2, l2, e2), None))
                     meta.append(("parse", txt, ts, scn, latent, depth, num, den, k))
     got = drv.run(ops)
     bad = []
@@ -153,7 +161,7 @@ def run(rng, n_texts=60, deadlines=True):
             g2 = " ".join(sorted(g.split(" "))) if g else ""
             ok = g2 == w
         elif m[0] == "parse":
-            scn, (cands, subj, labs, err, best) = w
+            scn, (cands, subj, labs, err, best), single = w
             parts = g.split(" ## ")
             if len(parts) != 5:
                 ok = False
@@ -174,6 +182,8 @@ def run(rng, n_texts=60, deadlines=True):
                         ok = ok and gs == subj and gl == labs
                     if scn == "hash":
                         ok = ok and gb == best
+                        if single is not None:
+                            ok = ok and single == gb        # real ctparse() vs the model's best of the stream
             w = "%s ## %s ## %s ## %s ## %s" % (cands, subj, labs, err, best)
         else:
             ok = g == w
